@@ -51,6 +51,14 @@ SHAPES = {
     "doc-flat-conflict": {"src": {"files": {}, "doc": {"a": 1, "n": 5}}, "dst": {"files": {}, "doc": {"a": 2, "z": 0}}},
     "doc-nested-conflict": {"src": {"files": {}, "doc": {"n": {"x": 1, "y": 2}, "first": 1}}, "dst": {"files": {}, "doc": {"n": {"x": 9}}}},
     "doc-deep-conflict": {"src": {"files": {}, "doc": {"p": {"q": {"r": 1, "s": 1}}}}, "dst": {"files": {}, "doc": {"p": {"q": {"r": 2}}}}},
+    "doc-none-conflict": {"src": {"files": {}, "doc": {"a": 5, "n": {"x": 1}, "z": 1}},
+                          "dst": {"files": {}, "doc": {"a": None, "n": {"x": None}, "z": None}}},
+    "doc-conflict-stale-backup": {"src": {"files": {}, "doc": {"a": 1, "n": 5}},
+                                  "dst": {"files": {DOCF + "~": F('{"a": 2}')}, "doc": {"a": 2, "z": 0}}},
+    "diff-size-newer-subsecond": {"src": {"files": {"c.txt": F("AAAAAA", 0.75)}, "doc": None}, "dst": {"files": {"c.txt": F("BB", 0.25)}, "doc": None}},
+    "diff-size-older-subsecond": {"src": {"files": {"c.txt": F("AAAAAA", 0.25)}, "doc": None}, "dst": {"files": {"c.txt": F("BB", 0.75)}, "doc": None}},
+    "doc-nested-dst-only": {"src": {"files": {}, "doc": {"p": {"q": 1}, "n": {"x": 1}}},
+                            "dst": {"files": {}, "doc": {"p": {"q": 2, "keep": 7}, "n": {"x": 9, "keepn": [1]}, "top": 0}}},
     "doc-mixed-type": {"src": {"files": {}, "doc": {"m": {"x": 1}, "k": 1}}, "dst": {"files": {}, "doc": {"m": 5}}},
     "doc-src-empty": {"src": {"files": {"f.txt": F("same")}, "doc": None}, "dst": {"files": {"f.txt": F("same")}, "doc": {"b": 2}}},
     "doc-dst-empty": {"src": {"files": {}, "doc": {"a": {"b": 1}}}, "dst": {"files": {}, "doc": None}},
@@ -331,6 +339,9 @@ def evaluate_case(case):
             elif outcome == "SchemaSyncConflict":
                 if not schema_risk:
                     bad("C13", "unexpected-exception", f"SchemaSyncConflict although check_schema is off / job level", outcome=outcome)
+            elif outcome == "RuntimeError" and any(shapes[i] == "doc-conflict-stale-backup" for i in scope) and \
+                    opts["doc_sync"] not in ("nosync", "copy"):
+                anomalies.append("RuntimeError: a stale document backup of an earlier, killed sync exists")
             else:
                 if mixed and outcome == "TypeError":
                     anomalies.append("TypeError on mapping-vs-scalar merge")
@@ -444,7 +455,7 @@ def evaluate_case(case):
                         continue
                     dnow, dold = read_doc(pd, ids[i]), docs_before[i]
                     fs, fo, fn_ = flat(sh["src"]["doc"]), flat(dold), flat(dnow)
-                    if outcome == "DocumentSyncConflict":
+                    if outcome in ("DocumentSyncConflict", "RuntimeError"):
                         if dnow != dold:
                             bad("C14", "document-not-rolled-back", f"job {i}: DocumentSyncConflict raised but the destination "
                                 f"document changed {dold} -> {dnow}", outcome=outcome)
@@ -479,7 +490,7 @@ def evaluate_case(case):
                     if opts["doc_sync"] in ("nosync", "copy") and pnow != pdoc_before:
                         bad("C14", "document-touched", f"project document changed under {opts['doc_sync']}")
             # no backup files remain
-            left = [k for k in after_d if k.endswith("~")] + [k for k in after_s if k.endswith("~")]
+            left = [k for k in after_d if k.endswith("~") and k not in before_d] + [k for k in after_s if k.endswith("~")]
             if left:
                 bad("C14", "backup-file-left-behind", f"backup files remain: {left}", outcome=outcome)
 
@@ -579,6 +590,12 @@ def base_cases(tier):
                    "sync_projects")
     for name in SHAPE_NAMES:
         yield ((name,), "none", base_opts(strategy="always", doc_sync="update", recursive=True, exclude="list"), "Project.sync")
+    for sh in (("diff-excluded-name", "diff-excluded-name"), ("identical", "diff-excluded-name"), ("dst-extra", "diff-excluded-name"),
+               ("diff-excluded-name", "src-new-files", "diff-excluded-name")):
+        for ds in ("copy", "default", "update"):
+            for order in ("sorted", "reversed"):
+                yield (sh, "none", base_opts(strategy="always", doc_sync=ds, recursive=True, exclude="list", order=order),
+                       "sync_projects")
     if tier != "quick":
         for tri in itertools.permutations(MULTI[:6], 3):
             for st, ds in (("always", "update"), ("never", "bykey-regex")):
